@@ -351,7 +351,10 @@ func (b *Biscuit) authorizerFor(root ed25519.PublicKey, opts ...AuthorizerOption
 	algorithm := make([]byte, 4)
 	binary.LittleEndian.PutUint32(algorithm[0:], uint32(b.container.Authority.NextKey.Algorithm.Number()))
 
-	toVerify := append(b.container.Authority.Block[:], algorithm...)
+	// the payloads are built in buffers of their own: appending to the stored
+	// block bytes would write into spare capacity shared with other users of b
+	toVerify := append([]byte{}, b.container.Authority.Block...)
+	toVerify = append(toVerify, algorithm...)
 	toVerify = append(toVerify, b.container.Authority.NextKey.Key[:]...)
 
 	if ok := ed25519.Verify(currentKey, toVerify, b.container.Authority.Signature); !ok {
@@ -370,7 +373,8 @@ func (b *Biscuit) authorizerFor(root ed25519.PublicKey, opts ...AuthorizerOption
 
 		algorithm := make([]byte, 4)
 		binary.LittleEndian.PutUint32(algorithm[0:], uint32(block.NextKey.Algorithm.Number()))
-		toVerify := append(block.Block[:], algorithm...)
+		toVerify := append([]byte{}, block.Block...)
+		toVerify = append(toVerify, algorithm...)
 		toVerify = append(toVerify, block.NextKey.Key[:]...)
 
 		if ok := ed25519.Verify(currentKey, toVerify, block.Signature); !ok {
@@ -408,7 +412,8 @@ func (b *Biscuit) authorizerFor(root ed25519.PublicKey, opts ...AuthorizerOption
 
 			algorithm := make([]byte, 4)
 			binary.LittleEndian.PutUint32(algorithm[0:], uint32(lastBlock.NextKey.Algorithm.Number()))
-			toVerify := append(lastBlock.Block[:], algorithm...)
+			toVerify := append([]byte{}, lastBlock.Block...)
+			toVerify = append(toVerify, algorithm...)
 			toVerify = append(toVerify, lastBlock.NextKey.Key[:]...)
 			toVerify = append(toVerify, lastBlock.Signature[:]...)
 
